@@ -104,7 +104,11 @@ class LiquidError(Exception):
                 break
 
         if target_line_index == -1:
-            raise ValueError("index is out of bounds for the given string")
+            # The index is at (or past) the end of the text, as it is for errors
+            # detected at the end of input. Point to the end of the last line.
+            if not lines:
+                return 1, 0, "", "", ""
+            target_line_index = len(lines) - 1
 
         # Line number (1-based)
         line_number = target_line_index + 1
